@@ -22,19 +22,22 @@ def shorten(items, limit=900):
 def main():
     rows = []
     n = miss = 0
+    notown = []
     for f in sorted(glob.glob(os.path.join(VERIF, "seeded", "*", "meta.json"))):
         m = json.load(open(f))
         n += 1
         own = m["caught_by"].get(m["property"], {})
         rules = ", ".join(own.get("rules", [])[:3]) or "-"
+        if not own.get("rules"):
+            notown.append(m["id"])
         others = ", ".join(k for k in sorted(m["caught_by"]) if k != m["property"]) or "-"
         hist = m.get("history", "")
         missed = "initially MISSED" in hist or hist.lower().startswith("missed")
         miss += 1 if missed else 0
         rows.append("| %s | %s | %s | %s | %s |" % (m["id"], m["needs_to_manifest"].replace("|", "/")[:150], "`" + rules + "`", others,
                                                 "**missed at first** — " + hist.split(";")[-1].strip()[:170] if missed else (hist[:170] or "reported as written")))
-    table = ("\n\n%d changes, all confirmed by me and all reported by the check of the property they break; %d of them were **missed when first run** and "
-             "the rule set was strengthened (last column), never loosened.\n\n| id | needs, in order to manifest | reported by (own property) | also reported by | notes |\n|---|---|---|---|---|\n" % (n, miss)) + "\n".join(rows) + "\n"
+    table = ("\n\n%d changes, all confirmed by me and %s; %d of them were **missed when first run** and "
+             "the rule set was strengthened (last column), never loosened.\n\n| id | needs, in order to manifest | reported by (own property) | also reported by | notes |\n|---|---|---|---|---|\n" % (n, "all reported by the check of the property they break" if not notown else "all but %s reported by the check of the property they break (open, see its notes column)" % ", ".join(notown), miss)) + "\n".join(rows) + "\n"
     p = os.path.join(VERIF, "DESIGN.md")
     s = open(p).read()
     if "<!-- SEEDED:BEGIN -->" in s:
